@@ -67,5 +67,7 @@ theorem slt_trichotomy (a b : BitVec 64) :
 
 /-- `^(uint64(prev - cost) - 1)` is the two's-complement word of `cost - prev` -/
 theorem not_sub_one (a b : BitVec 64) : ~~~(a - b - 1#64) = b - a := by bv_omega
+/-- the same negation spelled `-x` in the source -/
+theorem neg_sub_bv (a b : BitVec 64) : -(a - b) = b - a := by bv_omega
 
 end RV.Tie
